@@ -1835,6 +1835,10 @@ func hintString(h map[string]bool) string {
 	return ""
 }
 
+// KnownCalleeStackLeak: see known_findings.json.
+const KnownCalleeStackLeak = "items-on-stack-of-frame-unloaded-by-exception-stay-counted"
+
+
 func genAware(t *rapid.T) Case {
 	script, units, fin, hints := genAwareScript(t)
 	base := rapid.SampledFrom(baseFees).Draw(t, "basefee")
@@ -1844,6 +1848,61 @@ func genAware(t *rapid.T) Case {
 		// a second script underneath, sharing the evaluation stack (what a verification script is to an invocation script)
 		c.Below = vt.Bytes(genBelow(t))
 		c.GasLimit += datoshiFor(2000, base)
+	}
+	if rapid.IntRange(0, 4).Draw(t, "dyn") == 0 {
+		// Frames with an evaluation stack of their own: 1-3 scripts loaded through the harness's system call from a
+		// TRY block; each builds a few items and either returns (its stack is handed to the caller, which clears
+		// it) or throws with the items still on its stack, possibly from a nested CALL frame.
+		var pro []byte
+		exclDyn := false
+		for k := rapid.IntRange(1, 3).Draw(t, "ndyn"); k > 0; k-- {
+			callee := genBelow(t)
+			if len(callee) > 200 {
+				callee = callee[:0]
+			}
+			end := rapid.IntRange(0, 2).Draw(t, "dyn_end")
+			if end < 2 && vt.Known(KnownCalleeStackLeak) {
+				// listed finding: items left on the stack of a frame unloaded by an exception stay counted; the
+				// throwing script empties its stack first while the finding is listed
+				callee = append(callee, byte(opcode.CLEAR))
+				exclDyn = true
+			}
+			switch end {
+			case 0:
+				callee = append(callee, byte(opcode.PUSH0), byte(opcode.THROW))
+			case 1: // throw from a CALL frame of the loaded script: CALL +3; RET; PUSH1 PUSH2 PUSH0 THROW
+				if vt.Known(KnownCalleeStackLeak) {
+					callee = append(callee, byte(opcode.CALL), 3, byte(opcode.RET), byte(opcode.PUSH0), byte(opcode.THROW))
+				} else {
+					callee = append(callee, byte(opcode.CALL), 3, byte(opcode.RET), byte(opcode.PUSH1), byte(opcode.PUSH2), byte(opcode.PUSH0), byte(opcode.THROW))
+				}
+			}
+			// (a script loaded over an EMPTY evaluation stack shares it with its caller: an item is left below)
+			body := []byte{byte(opcode.PUSH5), byte(opcode.PUSHDATA1), byte(len(callee))}
+			body = append(body, callee...)
+			body = append(body, byte(opcode.SYSCALL), byte(LoadSyscallID&0xff), byte(LoadSyscallID>>8&0xff), byte(LoadSyscallID>>16&0xff), byte(LoadSyscallID>>24&0xff))
+			body = append(body, byte(opcode.CLEAR))
+			// TRY catch finally | body | ENDTRY end | catch: CLEAR ENDTRY end | end:
+			blk := []byte{byte(opcode.TRY), byte(3 + len(body) + 2), 0}
+			blk = append(blk, body...)
+			blk = append(blk, byte(opcode.ENDTRY), 2+1+2)
+			blk = append(blk, byte(opcode.CLEAR), byte(opcode.ENDTRY), 2)
+			pro = append(pro, blk...)
+		}
+		if exclDyn {
+			c.Hint += " excl:" + KnownCalleeStackLeak
+		}
+		c.Script = append(vt.Bytes(pro), c.Script...)
+		c.GasLimit += datoshiFor(40000, base)
+	}
+	if rapid.IntRange(0, 5).Draw(t, "prev") == 0 {
+		// The VM object ran another script before (and was Reset): that one ends with an uncaught THROW half of the
+		// time, leaving whatever it built in slots, on its stacks and in nested frames.
+		ps, _, _, _ := genAwareScript(t)
+		if rapid.Bool().Draw(t, "prev_throws") {
+			ps = append(append([]byte{}, ps...), byte(opcode.PUSH0), byte(opcode.THROW))
+		}
+		c.Prev = vt.Bytes(ps)
 	}
 	return c
 }
